@@ -614,3 +614,30 @@ def run_check(prop: str, fn: Callable[[Repo, Report], None], tier: str) -> int:
         traceback.print_exc()
         print("ANALYSIS-ERROR property=%s internal error: %r" % (prop, e))
         return 2
+
+
+def borrow(repo: "Repo", rep: "Report", own: str, sibling: str, rules: tuple[str, ...]) -> None:
+    """Run the sibling property's own rules into a scratch report and keep the obligations of `rules` (ids or id prefixes like
+    'C11.g') under this property as `<own>.via-<sibling rule id>`.  Instances that are open known findings of the sibling stay there."""
+    import importlib
+
+    mod = importlib.import_module("checks." + sibling.lower())
+    sub = Report(sibling, rep.tier, repo)
+    getattr(mod, "_run_before_borrow", mod.run)(repo, sub)
+    known = sub._known()
+    for rid, text in sub.rules.items():
+        if not any(rid == s_ or rid.startswith(s_ + "-") for s_ in rules):
+            continue
+        new = "%s.via-%s" % (own, rid)
+        rep.rule(new, "(rule %s of the check for %s, which this property depends on as well) %s" % (rid.split("-")[0], sibling, text), floor=sub.floors.get(rid, 1))
+        for inst in sub.instances:
+            if inst["rule"] != rid:
+                continue
+            if not inst["ok"] and any(Report._match(k, inst) for k in known):
+                continue
+            c = dict(inst)
+            c["rule"] = new
+            rep.instances.append(c)
+            if not c["ok"]:
+                rep.findings.append(c)
+    rep.analysed_funcs.update(sub.analysed_funcs)
